@@ -329,7 +329,7 @@ func pipelineBodyVia(r *explore.Run, rep *report.R, scName string, nsteps int, a
 	}
 	// A 404 for an existing object is what a lagging cache answers; the
 	// uncached client (API server) never does that.
-	inj := &xrh.FaultInjector{Run: r, Reads: true, NotFoundReads: true, NotFoundFilter: func(c simkube.Call) bool { return c.Client == "xr" }}
+	inj := (&xrh.FaultInjector{Run: r, Reads: true, NotFoundReads: true, NotFoundFilter: func(c simkube.Call) bool { return c.Client == "xr" }}).WithErrClasses(s)
 	s.Inj = inj
 	c := s.Client("xr")
 	opts := xrh.XROptions{Cached: c, Runner: fnRunner}
@@ -602,7 +602,7 @@ func ptBody(r *explore.Run, rep *report.R, scName string, faults bool) {
 	for _, ref := range xrh.Refs(s.Peek(xrh.XRKey("xr1"))) {
 		refsBefore[ref] = true
 	}
-	inj := &xrh.FaultInjector{Run: r, Reads: true, NotFoundReads: true}
+	inj := (&xrh.FaultInjector{Run: r, Reads: true, NotFoundReads: true}).WithErrClasses(s)
 	s.Inj = inj
 	logStart := len(s.Log)
 	inj.Armed = faults
